@@ -37,6 +37,58 @@ def top_level_rows(text):
     return rows
 
 
+LIBRARY_TEMPLATES = [
+    # (definitions - what a preloaded library file holds, uses - what the target does with it)
+    (["class Hoge", "  attr_reader :hog", "  attr_accessor :acc", "  def initialize(name)", "    @name = name", "  end",
+      "  def test(a, b)", "    a", "  end", "  def name", "    @name", "  end", "end"],
+     ["h = Hoge.new(\"n\")", "dbtp h.hog", "dbtp h.acc", "dbtp h.name", "dbtp h.test(1)", "dbtp h.test(1, 2)", "h.acc = 1", "dbtp h.acc"]),
+    (["module Util", "  LIMIT = 10", "  def self.twice(v)", "    v * 2", "  end", "  def helper(opt = nil, *rest, key: 1)", "    opt", "  end", "end",
+      "class Worker", "  include Util", "  def work", "    helper", "  end", "end"],
+     ["dbtp Util::LIMIT", "dbtp Util.twice(2)", "w = Worker.new", "dbtp w.work", "dbtp w.helper(1, 2, key: 3)", "dbtp w.missing"]),
+    (["def lib_id(x)", "  x", "end", "def lib_pair(a, b = 1)", "  [a, b]", "end", "def lib_unused(u)", "  1", "end", "$lib_global = 1", "LIB_CONST = \"s\""],
+     ["dbtp lib_id(1)", "dbtp lib_id(\"s\")", "dbtp lib_pair(1.5)", "dbtp lib_unused", "dbtp $lib_global", "dbtp LIB_CONST", "dbtp lib_missing(1)"]),
+    (["class Base1", "  def self.build(kind)", "    new", "  end", "  def kind", "    @kind", "  end", "  protected", "  def guarded", "    1", "  end",
+      "  private", "  def hidden", "    2", "  end", "end", "class Derived1 < Base1", "  def peek(other)", "    other.guarded", "  end", "end"],
+     ["d = Derived1.build(:x)", "dbtp d", "dbtp d.kind", "dbtp d.peek(Derived1.new)", "dbtp d.guarded", "dbtp d.hidden"]),
+]
+
+
+def library_programs(work, stats, rng, tier):
+    """definitions | uses programs: the natural shape of a preload (library first, the target uses it).  From the class
+    graphs of Classes.tla (plain and with every class in a namespace), from MethodPaths.tla / MethodBodies.tla, and from
+    templates whose library part leaves untyped placeholders (never-assigned attributes, parameters that get no type)."""
+    from . import classes as K
+    from . import c16
+    from . import methodpaths as MP
+    out = []
+    graphs = rng.sample(K.emit(work, stats), 40 if tier == "quick" else 600)
+    places = c16.choose_places(work, stats, graphs, rng)
+    for gi, gr in enumerate(graphs):
+        for pl in (None, places[gi]):
+            dl, _ = K.render(gr, K.PLAIN, place=pl)
+            ql, _ = K.query_lines(gr, K.PLAIN, place=pl)
+            out.append(("classes-defs|uses", "\n".join(dl + ql) + "\n", None, [(len(dl) + 1,)]))
+    mps = rng.sample(MP.emit(work, stats, 2), 40 if tier == "quick" else 600)
+    for p in mps:
+        lines, info = MP.render(p)
+        first_use = min(r for r in info["site_row"].values())
+        # the classes end before the first site's statement group: cut at the first top-level row after the class blocks
+        ncls = next(i for i, l in enumerate(lines) if l.startswith(("r0 =", "def caller", "module")) and i >= 5 and
+                    not any(x in l for x in ("class Top", "class Mid", "class Leaf")) and _after_classes(lines, i))
+        out.append(("methodpaths-defs|uses", "\n".join(lines) + "\n", None, [(ncls + 1,)]))
+    for defs, uses in LIBRARY_TEMPLATES:
+        text = "\n".join(defs + uses) + "\n"
+        forced = [(len(defs) + 1,)]
+        out.append(("library-template", text, None, forced))
+    return out
+
+
+def _after_classes(lines, i):
+    """is row i (0-based) behind the three class blocks?"""
+    seen = sum(1 for l in lines[:i] if l.strip().startswith("class ") and any(c in l for c in ("Top", "Mid", "Leaf")))
+    return seen == 3 and not lines[i].startswith("  ")
+
+
 def run(tier, work):
     v = C.Verdict("C18", tier, work)
     rng = C.tier_rng(tier, 18)
@@ -49,14 +101,15 @@ def run(tier, work):
     cfgs = P.gen_configs(work)
     progs = [(t, x, None) for t, x in P.corpus(rng, 80 if tier == "quick" else 585)]
     progs += P.generated(work, stats, rng, *((10, 6, 6) if tier == "quick" else (60, 40, 40)))
+    progs = [(t, x, c, None) for t, x, c in progs] + library_programs(work, stats, rng, tier)
     jobs, meta = [], []
-    for tag, text, cfgname in progs:
+    for tag, text, cfgname, forced in progs:
         cfg = cfgs[cfgname] if cfgname else None
         rows = top_level_rows(text)
         if not rows:
             continue
         lines = text.split("\n")
-        splits = []
+        splits = [list(f) for f in (forced or []) if all(r_ in rows for r_ in f)]
         for _ in range(3 if tier == "quick" else 8):
             k = rng.choice([1, 1, 2, 3])
             if len(rows) < k:
@@ -76,9 +129,15 @@ def run(tier, work):
                 meta.append(("split", tag, cut, len(jobs) + 0))
                 jobs.append({"cfg": cfg, "files": {"t.rb": text}, "args": args})
                 meta.append(("concat", tag, cut, None))
+    # the order of preload, placeholder cleaning and target evaluation is decided in main(): the comparison uses the real
+    # binary (black-box); the in-process worker only supplies event traces for the life-cycle validation
+    bb = C.Runner(work, "blackbox")
+    results = bb.run_many(jobs)
+    ntr = 400 if tier == "quick" else 3000
+    tidx = [i for i in range(0, len(jobs), 2)][:ntr]
     wr = C.Runner(work, "worker")
     try:
-        results = wr.run_many(jobs)
+        tres = dict(zip(tidx, wr.run_many([jobs[i] for i in tidx])))
     finally:
         wr.close()
     traces = []
@@ -91,10 +150,13 @@ def run(tier, work):
             continue
         shift = cut[-1] - 1
         want = [(k, f, row - shift, m) for k, f, row, m in C.parse_lines(rc["out"]) if row > shift]
+        if rs.get("timeout") or rc.get("timeout"):
+            v.count("watchdog_timeout_skipped")      # the 500 ms watchdog under load: no verdict from such a run
+            continue
         got = C.parse_lines(rs.get("out") or "") if not (rs.hung or rs.crashed) else [("!", "", 0, str(rs.get("cls")))]
         compared += 1
-        if not rs.get("died") and len(traces) < (400 if tier == "quick" else 3000):
-            traces.append((i, R.trace_of("#%d|%s|%s" % (i, tag, " ".join(js["args"])), rs, len(js["preload"]),
+        if i in tres and not tres[i].get("died"):
+            traces.append((i, R.trace_of("#%d|%s|%s" % (i, tag, " ".join(js["args"])), tres[i], len(js["preload"]),
                                          {"h"} if "-i" in js["args"] else set())))
         names_preload = [x for x in got if x[0] in "dh" and x[1] != "t.rb"]
         if sorted(want) == sorted(got) and not names_preload:
@@ -131,7 +193,9 @@ def run(tier, work):
     v.sample({"program": progs[0][0], "cut_rows_example": meta[0][2] if meta else None})
     cov = {"states": stats["states"], "transitions": stats["transitions"], "traces_validated_against_impl": stats["traces"],
            "trace_events": stats["trace_events"], "splits_compared": compared, "programs": len(progs),
-           "rule": "corpus + generated programs cut at 1-3 random top-level statement boundaries into preload files + target, "
+           "rule": "corpus + generated programs cut at 1-3 random top-level statement boundaries into preload files + target; "
+                   "definitions | uses programs (Classes.tla graphs plain and in namespaces, MethodPaths.tla programs, library templates "
+                   "with never-assigned attributes and untyped parameters) cut between the definitions and the uses; "
                    "run plain and with -i, compared with the concatenation restricted to the target's rows; preload runs "
                    "trace-validated against Run.tla"}
     return v.finish("model_checking", cov, assumptions=["top-level boundaries of corpus programs found by keyword-depth counting (conservative)"])
